@@ -1,9 +1,17 @@
 import AlgoVerif.Base.Drv
 import AlgoVerif.Base.Msgpack
+import AlgoVerif.Model.CodecSchema
 /-!
-Driver `c40`.  Op line:  `<type> <mode> <seed> <hex>`  (only the last field is read; a line with a single field is
-the hex itself).  Result:  `canon <dump>` | `noncanon <reason> <dump>` | `malformed`.
+Driver `c40` (stateful: remembers the schema of every type it was told about).
+
+  `schema <type> <ty-text>`                      → `schema-ok` | `schema-bad <why>`      (`SchemaWF`)
+  `<type> <mode> <seed> <hex> [<obj-text>]`      → `canon <dump>` | `noncanon <reason> <dump>` | `malformed`,
+        followed by ` schema=ok` when an object text is given and `enc (toV ty obj)` (Model.CodecSchema, the bytes
+        Props.C40Schema speaks about) equals the given bytes, ` schema=<problem>` otherwise
+  `<hex>`                                        → the classification alone
+
 The verdict `canon` is exactly `isCanonicalBytes` (Props.C40.canonical_bytes_iff); the reason is diagnostic only.
+Text syntax of types and objects: tools/c40h/describe.go.
 -/
 namespace AlgoVerif.Driver.C40
 open AlgoVerif.Drv AlgoVerif.Msgpack
@@ -56,12 +64,157 @@ def classify (bs : Bytes) : String :=
           | none => "unknown"
       "noncanon " ++ reason ++ " " ++ dump v
 
-def handle (line : String) : String :=
-  match (fields line).getLast? with
-  | none => "malformed"
-  | some hx =>
+/-! ### parser for the type / object texts -/
+open AlgoVerif.CodecSchema
+
+abbrev P (α : Type) := List Char → Option (α × List Char)
+
+def pNat : P Nat := fun cs =>
+  let ds := cs.takeWhile Char.isDigit
+  if ds.isEmpty then none else some (ds.foldl (fun a c => a * 10 + (c.toNat - 48)) 0, cs.drop ds.length)
+
+def pInt : P Int := fun cs =>
+  match cs with
+  | '-' :: r => (pNat r).map fun (n, t) => (-(n : Int), t)
+  | _ => (pNat cs).map fun (n, t) => ((n : Int), t)
+
+def isHex (c : Char) : Bool := c.isDigit || (c.toNat ≥ 97 && c.toNat ≤ 102)
+
+def pHex : P Bytes := fun cs =>
+  let hs := cs.takeWhile isHex
+  (unhexL hs).map fun b => (b, cs.drop hs.length)
+
+def pChar (c : Char) : P Unit := fun cs =>
+  match cs with
+  | d :: r => if c == d then some ((), r) else none
+  | [] => none
+
+mutual
+partial def pTy : P Ty := fun cs =>
+  match cs with
+  | 'B' :: r => some (.bool, r)
+  | 'U' :: r => (pNat r).map fun (n, t) => (.uint n, t)
+  | 'I' :: r => (pNat r).map fun (n, t) => (.int n, t)
+  | 'S' :: r => some (.str, r)
+  | 'Y' :: r => some (.bytes, r)
+  | 'F' :: r => (pNat r).map fun (n, t) => (.fixedBytes n, t)
+  | 'L' :: '(' :: r => do
+      let (e, t) ← pTy r
+      let (_, t) ← pChar ')' t
+      pure (.slice e, t)
+  | 'A' :: r => do
+      let (n, t) ← pNat r
+      let (_, t) ← pChar '(' t
+      let (e, t) ← pTy t
+      let (_, t) ← pChar ')' t
+      pure (.array n e, t)
+  | 'M' :: '(' :: r => do
+      let (k, t) ← pTy r
+      let (_, t) ← pChar ',' t
+      let (v, t) ← pTy t
+      let (_, t) ← pChar ')' t
+      pure (.map k v, t)
+  | 'T' :: '(' :: ')' :: r => some (.struct [], r)
+  | 'T' :: '(' :: r => do
+      let (fs, t) ← pFields r
+      pure (.struct fs, t)
+  | _ => none
+/-- `<hexname>:<0|1>:<ty>` separated by `;`, closed by `)` -/
+partial def pFields : P (List Field) := fun cs => do
+  let (name, t) ← pHex cs
+  let (_, t) ← pChar ':' t
+  let (oe, t) ← pNat t
+  let (_, t) ← pChar ':' t
+  let (ty, t) ← pTy t
+  match t with
+  | ';' :: t' => do
+      let (rest, t'') ← pFields t'
+      pure ((name, oe == 1, ty) :: rest, t'')
+  | ')' :: t' => pure ([(name, oe == 1, ty)], t')
+  | _ => none
+end
+
+mutual
+partial def pObj : P Obj := fun cs =>
+  match cs with
+  | 't' :: r => some (.bool true, r)
+  | 'f' :: r => some (.bool false, r)
+  | 'u' :: r => (pNat r).map fun (n, t) => (.uint n, t)
+  | 'i' :: r => (pInt r).map fun (n, t) => (.int n, t)
+  | 's' :: r => (pHex r).map fun (b, t) => (.str b, t)
+  | 'y' :: 'n' :: r => some (.bytesNil, r)
+  | 'y' :: r => (pHex r).map fun (b, t) => (.bytes b, t)
+  | 'x' :: r => (pHex r).map fun (b, t) => (.fixed b, t)
+  | 'l' :: 'n' :: r => some (.sliceNil, r)
+  | 'l' :: '(' :: r => (pObjs r).map fun (xs, t) => (.slice xs, t)
+  | 'a' :: '(' :: r => (pObjs r).map fun (xs, t) => (.array xs, t)
+  | 'm' :: 'n' :: r => some (.mapNil, r)
+  | 'm' :: '(' :: ')' :: r => some (.map [], r)
+  | 'm' :: '(' :: r => (pPairs r).map fun (xs, t) => (.map xs, t)
+  | 'r' :: '(' :: r => (pObjs r).map fun (xs, t) => (.struct xs, t)
+  | _ => none
+/-- objects separated by `,`, closed by `)` (possibly none) -/
+partial def pObjs : P (List Obj) := fun cs =>
+  match cs with
+  | ')' :: r => some ([], r)
+  | _ => do
+    let (o, t) ← pObj cs
+    match t with
+    | ',' :: t' => do
+        let (rest, t'') ← pObjs t'
+        if rest.isEmpty then none else pure (o :: rest, t'')
+    | ')' :: t' => pure ([o], t')
+    | _ => none
+partial def pPairs : P (List (Obj × Obj)) := fun cs => do
+  let (k, t) ← pObj cs
+  let (_, t) ← pChar '=' t
+  let (v, t) ← pObj t
+  match t with
+  | ',' :: t' => do
+      let (rest, t'') ← pPairs t'
+      pure ((k, v) :: rest, t'')
+  | ')' :: t' => pure ([(k, v)], t')
+  | _ => none
+end
+
+def parseAll {α : Type} (p : P α) (s : String) : Option α :=
+  match p s.toList with
+  | some (a, []) => some a
+  | _ => none
+
+/-- the schema verdict for one instance: `ok` iff the object is well typed and the model's bytes are the real bytes -/
+def schemaVerdict (tys : List (String × Ty)) (name otext : String) (bs : Bytes) : String :=
+  match tys.lookup name with
+  | none => "notype"
+  | some ty =>
+    match parseAll pObj otext with
+    | none => "obj-parse-error"
+    | some o =>
+      if !HasTy ty o then "illtyped"
+      else
+        let m := enc (toV ty o)
+        if m == bs then "ok"
+        else
+          let pos := match firstDiff 0 m bs with | some (i, _) => i | none => 0
+          s!"MISMATCH@{pos}:model={hexOf (m.take 3000)}"
+
+abbrev St := List (String × Ty)
+
+def step (st : St) (line : String) : St × String :=
+  match fields line with
+  | ["schema", _, "-"] => (st, "schema-skip")
+  | ["schema", name, tytext] =>
+    match parseAll pTy tytext with
+    | none => (st, "schema-bad parse-error")
+    | some ty => if SchemaWF ty then ((name, ty) :: st, "schema-ok") else (st, "schema-bad not-wellformed")
+  | [hx] => (st, match unhex hx with | none => "malformed" | some bs => classify bs)
+  | [_, _, _, hx] => (st, match unhex hx with | none => "malformed" | some bs => classify bs)
+  | [name, _, _, hx, otext] =>
     match unhex hx with
-    | none => "malformed"
-    | some bs => classify bs
+    | none => (st, "malformed")
+    | some bs =>
+      let c := classify bs
+      if otext == "-" then (st, c) else (st, c ++ " schema=" ++ schemaVerdict st name otext bs)
+  | _ => (st, "malformed")
 
 end AlgoVerif.Driver.C40
